@@ -65,7 +65,7 @@ def gen(rng, tier):
                     break
             except ValueError:
                 continue
-        jobs.append(dict(j, name=name, blocked_by=[], group=g["name"], command=cmd, style=style, rc=rng.choice([0, 0, 1, 2, 77, 126, 127, 128, 200, 255]), flag=False,
+        jobs.append(dict(j, name=name, blocked_by=[], group=g["name"], command=cmd, style=style, rc=rng.choice([0, 0, 1, 2, 77, 126, 127, 128, 200, 255, -9, -15]), flag=False,
                          append_job_name=rng.random() < 0.5, append_output_dir=rng.random() < 0.5, auto_name=auto))
     base["jobs"] = jobs
     base["max_nodes"] = None
